@@ -121,3 +121,17 @@ META["C20"] = dict(
          "sensitivity is checked on real coins.",
     note="The model shares the Hasher trait functions with the code; it does not re-derive the hash.",
 )
+META["C21"] = dict(
+    technique="exhaustive executed oracle in a bounded domain (explicit cell sets vs apply / get_num_steps / validate_trace_length / overlaps_with on every ordered pair)",
+    text="The code's answers are compared with explicit cell sets written down from the documentation for every assertion "
+         "and every ordered pair of assertions at every power-of-two trace length up to 256 (1024 thorough); inside that "
+         "bound nothing is sampled except the assertion lists handed to BoundaryConstraints::new.",
+    note="Bounded: trace lengths above the bound and more than two columns are not run (columns are compared first, so two suffice).",
+)
+META["C24"] = dict(
+    technique="pairwise injectivity monitor over one-parameter context edits, in three element fields",
+    text="For each base context every listed parameter is changed alone to all (small domains) or boundary / bit-flip / "
+         "random (large domains) values and the two to_elements vectors must differ; metadata edits target the chunking and "
+         "zero-padding rule. The one colliding class on the pinned tree is a recorded finding with an exact signature.",
+    note="Known finding: metadata differing only by trailing zeros inside the last chunk (known_findings.json).",
+)
